@@ -1520,9 +1520,10 @@ class sptensor:
             raise ValueError(
                 "Cannot call nvecs on sptensor with only singleton dimensions"
             )
-        tnt = self.to_sptenmat(rdims=np.array([n])).double().transpose()
-        # The sparse eigensolver only accepts floating point matrices
-        y = tnt.transpose().dot(tnt).astype(float)
+        # The sparse eigensolver only accepts floating point matrices; cast before the
+        # product so that narrow integer values cannot overflow in the Gram matrix
+        tnt = self.to_sptenmat(rdims=np.array([n])).double().transpose().astype(float)
+        y = tnt.transpose().dot(tnt)
         if r < y.shape[0] - 1:
             w, v = scipy.sparse.linalg.eigsh(y, r)
             v = v[:, (-np.abs(w)).argsort()]
